@@ -120,6 +120,15 @@ theorem pRetract_step (id : Id) (expect : Option Nat) (s : Store) (tx : Tx) :
     repeat' split
     all_goals first | exact .same rfl h1 | exact .same rfl ⟨h1.1, h1.2.1, h1.2.2⟩
 
+theorem pPurge_step (id : Id) (bad : Bool) (s : Store) (tx : Tx) : Step s tx (pPurge id bad s tx) := by
+  unfold pPurge
+  split
+  · exact .same rfl (TxSame.rfl' _)
+  · rename_i tx1 x hl
+    have h1 := load_same hl
+    repeat' split
+    all_goals first | exact .same rfl h1 | exact .same rfl ⟨h1.1, h1.2.1, h1.2.2⟩
+
 /-! ## The planning invariant -/
 
 /-- Relation between the store a statement began on (`base`, after `begin_transaction`) and the
@@ -222,6 +231,7 @@ theorem pres_pStageNew (id : Id) (row : Row) : Pres (pStageNew id row) := Pres.o
 theorem pres_pAssign (id : Id) (v : Option Nat) : Pres (pAssign id v) := Pres.of_step (pAssign_step id v)
 theorem pres_pSetState (id : Id) (to : St) (x : Option St) : Pres (pSetState id to x) := Pres.of_step (pSetState_step id to x)
 theorem pres_pRetract (id : Id) (x : Option Nat) : Pres (pRetract id x) := Pres.of_step (pRetract_step id x)
+theorem pres_pPurge (id : Id) (b : Bool) : Pres (pPurge id b) := Pres.of_step (pPurge_step id b)
 
 theorem Pres.chain {f g : Store → Tx → PS} (hf : Pres f) (hg : Pres g) : Pres (fun s tx => (f s tx).andThen g) :=
   fun base q d s tx e h => (hf base q d s tx e h).andThen' hg
@@ -236,6 +246,7 @@ macro "pres_chain" h:ident : tactic => `(tactic|
     | exact pres_pStageNew _ _ _ _ _ _ _ _ $h
     | exact pres_pSetState _ _ _ _ _ _ _ _ _ $h
     | exact pres_pRetract _ _ _ _ _ _ _ _ $h
+    | exact pres_pPurge _ _ _ _ _ _ _ _ $h
     | exact pres_pAssign _ _ _ _ _ _ _ _ $h
     | exact Pres.fail' _ _ _ _ _ _ _ $h
     | exact pres_pGuard _ _
